@@ -1085,7 +1085,7 @@ func (c *Check) nmLookupPure() {
 // every path to combineProfiles, independently of -diff_base.
 func (c *Check) normalizeUnconditional() {
 	p := c.P
-	f := c.anchorFn("C07-R1", "internal/driver", "fetchProfiles")
+	f, _, _ := c.wiringFunction("C07-R1")
 	if f == nil {
 		return
 	}
@@ -1106,10 +1106,10 @@ func (c *Check) normalizeUnconditional() {
 		return // reported by baseWiring
 	}
 	assume := func(cond ssa.Value) int {
-		if isFieldLoad(cond, "driver.source", "Normalize") {
+		if fieldFlag(p, cond, "driver.source", "Normalize", 0) {
 			return 1
 		}
-		if u, ok := cond.(*ssa.UnOp); ok && u.Op == token.NOT && isFieldLoad(u.X, "driver.source", "Normalize") {
+		if u, ok := cond.(*ssa.UnOp); ok && u.Op == token.NOT && fieldFlag(p, u.X, "driver.source", "Normalize", 0) {
 			return -1
 		}
 		return 0
